@@ -14,7 +14,7 @@ RULE = ('programs x sequences of K<=2 (thorough: sampled K=3,4) requests from {p
 RULE += ('; also: kills withdrawn by their requester (cancelled future), stepping task aborted with a kill pending, two listeners acting within one deferred request, recreated processes, workchains awaiting futures / children, future-cancel twins of every kill')
 ASSUMPTIONS = ['steps complete without external stimulus (asyncio.sleep(0) yields only)', 'quiescence = empty ready queue, no timers']
 REQUIRED = ['kill_after_abort', 'kill_recreated', 'kill_workchain', 'kill_live', 'quiescent_checks', 'kill_phase/unstarted', 'kill_phase/running-step', 'kill_phase/waiting-step', 'kill_phase/paused',
-            'kill_phase/pausing', 'kill_phase/listener']
+            'kill_phase/pausing', 'kill_phase/listener', 'custom_state_kills_while_blocked']
 ALPHABET = [['pause', 'p'], ['play'], ['kill', 'k'], ['resume', ['v']], ['cancel_future']]
 KILLS = ('kill', 'cancel_future')
 LISTENER_EVENTS = ['running', 'waiting', 'paused', 'played', 'output']
@@ -29,9 +29,19 @@ def _has_kill(plan):
 DEEP = ('wait_async', 'cont_async', 'out_async', 'wait2')  # thorough: K=3 exhaustive on these
 
 
+CUSTOM_REQUESTS = (['kill'], ['cancel_future'], ['pause', 'kill'], ['kill', 'kill'], ['pause', 'play', 'kill'], ['kill', 'pause'], ['pause', 'cancel_future'],
+                   ['kill', 'cancel_future'])
+
+
 def gen_cases(tier, seed):
     for case in gen_wc_cases(tier, seed):
         yield case
+    # a process with a state class of its own (``get_state_classes``): a RUNNING state whose interrupt() wakes up the step blocked in it --
+    # the interruption is how that step comes to yield, so the kill must be delivered to the state object, whatever its label
+    for reqs in CUSTOM_REQUESTS:
+        for gap in (0, 1, 2):
+            for spins in (1, 3):
+                yield {'kind': 'custom-state', 'name': 'interruptible-running', 'requests': list(reqs), 'gap': gap, 'spins': spins, 'plan': []}
     progs = dict(programs.basic_programs())
     rng = plans.rng_for(seed, 'c04')
     for n in range(40 if tier == 'thorough' else 6):
@@ -184,7 +194,120 @@ def _kill_phase(a):
     return out
 
 
+def run_custom_state(case):
+    import asyncio
+
+    import plumpy
+    from plumpy import process_states
+    from plumpy.process_comms import MESSAGE_TEXT_KEY
+
+    class InterruptibleRunning(process_states.Running):
+        def interrupt(self, reason):
+            gate = self.process.gate
+            if gate is not None and not gate.done():
+                gate.set_exception(reason)
+
+    class LongJob(plumpy.Process):
+        gate = None
+        entered = 0
+
+        @classmethod
+        def get_state_classes(cls):
+            states = super().get_state_classes()
+            states[plumpy.ProcessState.RUNNING] = InterruptibleRunning
+            return states
+
+        async def run(self):
+            self.entered += 1
+            self.gate = self.loop.create_future()
+            await self.gate  # nothing completes this: the step yields when it is interrupted
+            return 'done'
+
+    loop = asyncio.new_event_loop()
+    asyncio.set_event_loop(loop)
+    V = judges.V
+    viol = []
+    obs = {'custom_state_runs': 1, 'custom_state_kills_while_blocked': 0, 'kill_live': 0}
+    label = '>'.join(case['requests'])
+    try:
+        async def spin(n):
+            for _ in range(n):
+                await asyncio.sleep(0)
+
+        async def scenario():
+            proc = LongJob(loop=loop)
+            task = asyncio.ensure_future(proc.step_until_terminated())
+            await spin(case['spins'] + 2)
+            if proc.state != plumpy.ProcessState.RUNNING or proc.gate is None:
+                return 'set-up: the process is not inside its running step'
+            rets = []
+            first_text = None
+            for n, req in enumerate(case['requests']):
+                blocked = proc.gate is not None and not proc.gate.done() and not proc.paused
+                try:
+                    if req == 'kill':
+                        obs['kill_live'] += int(not proc.has_terminated())
+                        obs['custom_state_kills_while_blocked'] += int(blocked)
+                        if first_text is None and not proc.has_terminated():
+                            first_text = 'k%d' % n
+                        rets.append(('kill', proc.kill('k%d' % n)))
+                    elif req == 'cancel_future':
+                        obs['kill_live'] += int(not proc.has_terminated())
+                        obs['custom_state_kills_while_blocked'] += int(blocked)
+                        if first_text is None and not proc.has_terminated():
+                            first_text = 'Killed by future being cancelled'
+                        proc.future().cancel()
+                    elif req == 'pause':
+                        rets.append(('pause', proc.pause('p%d' % n)))
+                    elif req == 'play':
+                        rets.append(('play', proc.play()))
+                except Exception as exc:  # noqa: BLE001
+                    viol.append(V('kill-raised' if req == 'kill' else 'request-raised', '%s-raised:custom-state:%s' % (req, type(exc).__name__),
+                                  '%s() on a process blocked in its interruptible RUNNING state raised %r (requests %s)' % (req, exc, label)))
+                await spin(case['gap'])
+            await spin(20)
+            if proc.paused and not proc.has_terminated():
+                viol.append(V('kill-lost', 'kill-lost:custom-state:paused', 'after %s the process sits paused in %s: the kill was not carried out' % (label, proc.state.value)))
+            elif proc.state != plumpy.ProcessState.KILLED:
+                viol.append(V('kill-lost', 'kill-lost:custom-state:%s' % proc.state.value, 'a process blocked in a step of its own interruptible RUNNING state was asked to end '
+                              '(%s); the step yields when it is interrupted, but the process is still %s after the loop ran dry' % (label, proc.state.value)))
+                again = proc.kill('again')
+                await spin(20)
+                if proc.state != plumpy.ProcessState.KILLED:
+                    viol.append(V('unkillable', 'unkillable:custom-state', 'and a further kill() (returned %r) does not end it either' % (again,)))
+            else:
+                text = proc.killed_msg()[MESSAGE_TEXT_KEY]
+                if text != first_text:
+                    viol.append(V('kill-text', 'kill-text:custom-state', 'killed with text %r, the first request to end it said %r (%s)' % (text, first_text, label)))
+                if not task.done():
+                    viol.append(V('stepper-stuck', 'stepper-stuck:custom-state', 'KILLED but step_until_terminated() has not returned'))
+            for what, ret in rets:
+                if what == 'kill' and asyncio.isfuture(ret):
+                    if not ret.done():
+                        viol.append(V('kill-future-pending', 'kill-future-pending:custom-state', 'the future returned by kill() never resolved (%s, final %s)' % (label, proc.state.value)))
+                    elif not ret.cancelled() and ret.exception() is None and ret.result() is not (proc.state == plumpy.ProcessState.KILLED):
+                        viol.append(V('kill-future-wrong', 'kill-future-wrong:custom-state', 'kill() future says %r, process is %s' % (ret.result(), proc.state.value)))
+            if not task.done():
+                task.cancel()
+                try:
+                    await task
+                except BaseException:  # noqa: BLE001
+                    pass
+            return None
+
+        incon = loop.run_until_complete(asyncio.wait_for(scenario(), 5))
+    except asyncio.TimeoutError:
+        incon = 'watchdog'
+    finally:
+        asyncio.set_event_loop(None)
+        loop.close()
+    return {'viol': judges._dedupe(viol), 'obs': obs, 'inconclusive': incon, 'key': ['custom-state', case['requests'], case['gap'], case['spins']],
+            'nontrivial': obs['custom_state_kills_while_blocked'] > 0, 'sample': {'program': 'interruptible-running', 'requests': case['requests']}}
+
+
 def run_case(case):
+    if case.get('kind') == 'custom-state':
+        return run_custom_state(case)
     if case.get('wc'):
         from pv import wcprog
         rec = wcprog.run_case(case)
